@@ -44,15 +44,17 @@ def gen_records(cpu, mode, seed, nrandom, per_spec):
     return out
 
 
+LAST_HISTORY = [None]
+
+
 def amoco_first(cpu, rec, mode):
     dis = cpu.disassemble
-    isa.reset_pending(dis)
+    # no reset of the decoder's private state; sometimes a prefixed byte string that is not an instruction is decoded first
+    LAST_HISTORY[0] = isa.junk_history(dis, ("x64_x64" if mode == 64 else "x86_x86", 0))
     try:
         i = dis(rec + b"\x90" * (R.STRIDE - len(rec)))
     except Exception as x:
-        isa.reset_pending(dis)
         return ("raised", type(x).__name__)
-    isa.reset_pending(dis)
     if i is None:
         return None
     disp = None
@@ -78,7 +80,7 @@ def compare(run, cpu, mode, recs, refs, src):
         if a is None:
             run.hist("amoco_no_decode_%d" % mode, otext.split()[0] if otext else "?")
             continue
-        rep = {"mode": mode, "bytes": rec.hex(), "objdump": otext, "llvm": ltext, "source": src}
+        rep = {"mode": mode, "bytes": rec.hex(), "objdump": otext, "llvm": ltext, "source": src, "history": [LAST_HISTORY[0]] if LAST_HISTORY[0] else []}
         if a[0] == "raised":
             continue                     # crashes are C17's subject
         n += 1
@@ -225,6 +227,11 @@ def replay(path):
     import amoco.arch.x64.cpu_x64 as c64
     cpu = c64 if obj["mode"] == 64 else c32
     rec = bytes.fromhex(obj["bytes"])
+    for h in obj.get("history", []):
+        try:
+            cpu.disassemble(bytes.fromhex(h))
+        except Exception:
+            pass
     print("amoco:", amoco_first(cpu, rec, obj["mode"]), "references:", obj.get("objdump"), "|", obj.get("llvm"))
     if R.have_tools():
         print("live reference:", R.reference([rec[:15]], obj["mode"]))
